@@ -31,8 +31,13 @@ struct DataRegions {
         take();
     }
     void take() { snap.clear(); for (auto &r : regs) snap.push_back(Str(r.first, r.second)); }
+    // puts the image taken at construction (process start, before the first library call) back: every execution, every solo run and
+    // every sweep call starts from the same static state, so what it reports does not depend on what ran before and replays alone
+    void restore() { for (size_t i = 0; i < regs.size(); i++) memcpy(regs[i].first, snap[i].data(), regs[i].second); }
     long changed() const { for (size_t i = 0; i < regs.size(); i++) for (size_t k = 0; k < regs[i].second; k++) if (regs[i].first[k] != snap[i][k]) return (long)k; return -1; }
 };
+
+static DataRegions g_pristine;      // constructed before main(): the image of the library's writable data before its first call
 
 // The ledger is shared by all threads; in the allocator-level mode each of its entries is a scheduling point.
 struct SharedMM { Ledger led; UriMemoryManager mm; bool points;
@@ -46,13 +51,13 @@ struct SharedMM { Ledger led; UriMemoryManager mm; bool points;
 };
 
 struct Explorer {
-    Ctx &ctx; Local &lc; Sched sched; SharedMM smm; ConcWorld world; DataRegions data; bool block_level;
+    Ctx &ctx; Local &lc; Sched sched; SharedMM smm; ConcWorld world; DataRegions &data; bool block_level;
     std::vector<int> group; std::vector<std::vector<Str> > solo; int bound; Str group_enc; uint64_t budget;
-    Explorer(Ctx &c, Local &l, bool blk) : ctx(c), lc(l), world(&smm.mm), block_level(blk), bound(0), budget(0) { lc.data_bytes = data.total; }
+    Explorer(Ctx &c, Local &l, bool blk) : ctx(c), lc(l), world(&smm.mm), data(g_pristine), block_level(blk), bound(0), budget(0) { lc.data_bytes = data.total; }
     Str enc(const std::vector<uint8_t> &choices) const { Str e = group_enc + "`" + (block_level ? "b" : "a") + "`"; bool first = true; for (size_t i = 0; i < choices.size(); i++) if (choices[i]) { e += fmt("%s%zu:%d", first ? "" : ",", i, choices[i]); first = false; } return e; }   // sparse: position:choice for the non-default choices
     // one execution under a choice prefix; results[i] = what thread i observed
     bool execute(const std::vector<uint8_t> &prefix, std::vector<Str> &results, Str &what) {
-        results.assign(group.size(), Str()); smm.led.reset(); int sig;
+        results.assign(group.size(), Str()); smm.led.reset(); int sig; data.restore();
         if ((sig = GUARD_ENTER()) != 0) { g_sched = 0; sched.active = false; what = fmt("%s under this schedule (crash, or write to a shared read-only input)", signame(sig)); return false; }
         smm.points = !block_level; g_sched = &sched;
         sched.run((int)group.size(), prefix, [&](int id) { results[id] = world.run_body(group[id], id); });
@@ -61,7 +66,7 @@ struct Explorer {
         if (sched.diverged) { what = "replay diverged from the recorded prefix (non-determinism in the harness)"; return false; }
         for (size_t i = 0; i < group.size(); i++) if (results[i] != solo[group[i]][i]) { const Str &a = results[i], &b = solo[group[i]][i]; size_t k = 0; while (k < a.size() && k < b.size() && a[k] == b[k]) k++; size_t from = k > 60 ? k - 60 : 0; what = fmt("thread %zu (%s) observed '...%s' but alone it observes '...%s'", i, CONC_BODY_NAMES[group[i]], a.substr(from, 160).c_str(), b.substr(from, 160).c_str()); return false; }
         if (!smm.led.live.empty() || !smm.led.errors.empty()) { what = smm.led.errors.empty() ? fmt("%zu blocks outstanding after all threads finished", smm.led.live.size()) : smm.led.errors[0]; return false; }
-        long ch = data.changed(); if (ch >= 0) { what = fmt("a byte of the library's writable data changed (offset %ld of %zu bytes): the library keeps mutable global/static state", ch, data.total); data.take(); return false; }
+        long ch = data.changed(); if (ch >= 0) { what = fmt("a byte of the library's writable data changed (offset %ld of %zu bytes): the library keeps mutable global/static state", ch, data.total); data.restore(); return false; }
         return true;
     }
     void explore(const std::vector<uint8_t> &prefix) {
@@ -88,26 +93,26 @@ struct Explorer {
     void solo_runs() {
         solo.assign(CONC_NBODIES, std::vector<Str>());
         for (int b = 0; b < CONC_NBODIES; b++) for (int slot = 0; slot < Sched::MAXT; slot++) {
-            smm.led.reset(); int sig;
+            smm.led.reset(); int sig; data.restore();
             if ((sig = GUARD_ENTER()) != 0) { ctx.violation("", fmt("%d`%s`", b, block_level ? "b" : "a"), fmt("%s in thread body '%s' run alone (crash, or write to a shared read-only input)", signame(sig), CONC_BODY_NAMES[b])); solo[b].push_back("crashed"); continue; }
             solo[b].push_back(world.run_body(b, slot)); GUARD_LEAVE();
-            long ch = data.changed(); if (ch >= 0) { ctx.violation("", fmt("%d`%s`", b, block_level ? "b" : "a"), fmt("a byte of the library's writable data changed while '%s' ran alone: the library keeps mutable global/static state", CONC_BODY_NAMES[b])); data.take(); }
+            long ch = data.changed(); if (ch >= 0) { ctx.violation("", fmt("%d`%s`", b, block_level ? "b" : "a"), fmt("a byte of the library's writable data changed while '%s' ran alone: the library keeps mutable global/static state", CONC_BODY_NAMES[b])); data.restore(); }
         }
-        smm.led.reset(); data.take();
+        smm.led.reset(); data.restore();
     }
     // static-state sweep: every call of the scenario universe and a parse corpus, comparing the library's writable data after each
     void static_sweep() {
         Mem mem(1); ArenaMM ro(64); std::vector<ScnSpec> specs = scenario_specs(ctx.quick() ? 1 : 2); uint64_t n = 0;
         for (size_t i = 0; i < specs.size(); i++) {
-            if (!ctx.mine(i)) continue; if (ctx.expired()) break; int sig;
+            if (!ctx.mine(i)) continue; if (ctx.expired()) break; int sig; data.restore();
             if ((sig = GUARD_ENTER()) != 0) { ctx.violation("", "sweep`" + specs[i].enc(), fmt("%s during the static-state sweep in %s", signame(sig), specs[i].show().c_str())); continue; }
             { Scenario<char> sc(specs[i], &mem, &ro); if (sc.setup()) { int rc = sc.call(); sc.cleanup(rc); } }
             { Scenario<wchar_t> sc(specs[i], &mem, &ro); if (sc.setup()) { int rc = sc.call(); sc.cleanup(rc); } }
             GUARD_LEAVE(); n++; ctx.progress++;
-            long ch = data.changed(); if (ch >= 0) { ctx.violation("", "sweep`" + specs[i].enc(), fmt("a byte of the library's writable data changed (offset %ld of %zu bytes) during %s: the library keeps mutable global/static state", ch, data.total, specs[i].show().c_str())); data.take(); }
+            long ch = data.changed(); if (ch >= 0) { ctx.violation("", "sweep`" + specs[i].enc(), fmt("a byte of the library's writable data changed (offset %ld of %zu bytes) during %s: the library keeps mutable global/static state", ch, data.total, specs[i].show().c_str())); data.restore(); }
         }
         auto parse_one = [&](const Str &t) { UriUriA u; UriUriW w; const char *e; const wchar_t *we; std::wstring wt = widen<wchar_t>(t); uriParseSingleUriExA(&u, t.data(), t.data() + t.size(), &e); uriFreeUriMembersA(&u); uriParseSingleUriExW(&w, wt.data(), wt.data() + wt.size(), &we); uriFreeUriMembersW(&w); n++;
-            long ch = data.changed(); if (ch >= 0) { ctx.violation("", "sweep`0`" + t + "``0`0", "a byte of the library's writable data changed while parsing '" + esc(t) + "': the library keeps mutable global/static state"); data.take(); } };
+            long ch = data.changed(); if (ch >= 0) { ctx.violation("", "sweep`0`" + t + "``0`0", "a byte of the library's writable data changed while parsing '" + esc(t) + "': the library keeps mutable global/static state"); data.restore(); } };
         brute_force_classes(ctx, 4, [&](const char *p, int len, int) { parse_one(Str(p, len)); });
         octet_product(ctx, [&](const Str &t) { parse_one(t); });
         ip6_product(ctx, 4, 3, [&](const Str &t) { parse_one(t); });
@@ -139,7 +144,7 @@ void run(Ctx &ctx) {
 void replay(Ctx &ctx, const Str &enc) {
     std::vector<Str> p = split(enc, '`'); Local lc;
     if (p.size() >= 6 && p[0] == "sweep") {       // re-run the sweep call alone and compare the data sections
-        ScnSpec sp; if (!ScnSpec::dec(p, 1, sp)) return; DataRegions data; Mem mem(1); ArenaMM ro(64); int sig;
+        ScnSpec sp; if (!ScnSpec::dec(p, 1, sp)) return; DataRegions &data = g_pristine; Mem mem(1); ArenaMM ro(64); int sig;
         if ((sig = GUARD_ENTER()) != 0) { ctx.violation("", enc, fmt("%s during the static-state sweep", signame(sig))); return; }
         { Scenario<char> sc(sp, &mem, &ro); if (sc.setup()) { int rc = sc.call(); sc.cleanup(rc); } } { Scenario<wchar_t> sc(sp, &mem, &ro); if (sc.setup()) { int rc = sc.call(); sc.cleanup(rc); } }
         GUARD_LEAVE(); if (data.changed() >= 0) ctx.violation("", enc, "a byte of the library's writable data changed: the library keeps mutable global/static state");
